@@ -21,15 +21,22 @@ Proved here, for ALL inputs, all split points and all chunkings (no bounds):
                                       without the faulted calls is the fault-free transcript, for any reader;
   * `value_span_tokens`               the bytes of a string/number token are exactly input[start:stop].
 
-Not proved (kept as `def … : Prop`, validated by the harness only): the simulation for scripts that also use
-ReadValue / SkipValue / PeekKind, StackPointer and error pointers (`sim_full`), `value_span_full` for ReadValue,
-`fault_stutter_full` for ReadValue and PeekKind.
+  * `sim_full`, `sim_full_events`      the same for SCRIPTS mixing ReadToken / ReadValue / SkipValue: the streaming
+                                      consumeValue/consumeObject/consumeArray answer what `Validate.consumeValue`
+                                      answers on the whole input;
+  * `value_span_full`, `fault_stutter_full`  ReadValue hands out exactly input[a:b] with InputOffset = b; a fault inside
+                                      a value is returned without moving the decoder.
+
+Not proved (kept as `def … : Prop`, validated by the harness only): StackPointer / error pointers
+(`sim_pointers_full`), PeekKind with its cache (`sim_peek_full`); a fault inside SkipValue's token loop leaves the
+decoder part-way by design.
 -/
 import JsonV.Lemmas.ResumeNum
 import JsonV.Lemmas.ResumeStr
 import JsonV.Lemmas.ResumeLit
 import JsonV.Lemmas.ResumeWindow
 import JsonV.Lemmas.ResumeStreamRun
+import JsonV.Lemmas.ResumeStreamCalls
 
 namespace JsonV.Props.C05
 open JsonV JsonV.Model JsonV.Model.Resume JsonV.Model.Window
@@ -263,49 +270,105 @@ open JsonV.Model.Stream in
 /-- `Sim` is met initially (so every reachable pair of states satisfies it, by `readToken_sim`) -/
 example (es : List Event) : Sim (Stream.init es) { r := avail es } := sim_init es
 
+/-! ## The streaming decoder: scripts of ReadToken / ReadValue / SkipValue
+
+`Stream.readValue` = the head shared with ReadToken, then the streaming consumeValue / consumeObject / consumeArray
+(`sValue …`: every blank run, literal, string and number inside the value goes through its refill loop at its
+position), then the state machine; `Stream.skipValue` = PeekKind without its cache, then a ReadToken loop (for `{`,
+`[`) or a ReadValue.  The whole-buffer side is `Validate.consumeValue` (slice `wire`, the function `valid_iff` /
+`value_complete` speak about) for containers and `TokenLoop.lexToken` for scalars, behind `TokenLoop.readToken`'s head. -/
+
+open JsonV.Model.Stream in
+/-- `sim_full` (ReadToken / ReadValue / SkipValue).  For EVERY chunking `cs` of the input and EVERY script of calls,
+the streaming decoder returns, call by call, exactly what the decoder over the whole input returns: token and value
+kinds, spans, absolute offsets (`stop` = InputOffset afterwards), error classes and offsets; the state machine and
+the namespaces stay equal too (`Sim` is kept). -/
+theorem sim_full (o : Validate.VOpts) (calls : List Stream.Call) (cs : List Bytes) :
+    Stream.runScript o calls (Stream.init (cs.map Event.chunk)) = Stream.wholeScript o calls { r := cs.flatten } := by
+  have h := script_sim o calls (Stream.init (cs.map Event.chunk)) { r := avail (cs.map Event.chunk) }
+    (sim_init _) (noFault_chunks cs)
+  rw [avail_chunks] at h
+  exact h
+
+open JsonV.Model.Stream in
+/-- the same for any reader that does not fault (empty reads, `eof` anywhere) -/
+theorem sim_full_events (o : Validate.VOpts) (calls : List Stream.Call) (es : List Event) (h : NoFault es) :
+    Stream.runScript o calls (Stream.init es) = Stream.wholeScript o calls { r := avail es } :=
+  script_sim o calls _ _ (sim_init es) h
+
+open JsonV.Model.Stream in
+/-- two chunkings of the same bytes cannot be told apart by any script -/
+theorem sim_full_any_two (o : Validate.VOpts) (calls : List Stream.Call) (cs ds : List Bytes) (h : cs.flatten = ds.flatten) :
+    Stream.runScript o calls (Stream.init (cs.map Event.chunk)) =
+      Stream.runScript o calls (Stream.init (ds.map Event.chunk)) := by
+  rw [sim_full, sim_full, h]
+
+open JsonV.Model.Stream in
+/-- a script that uses all three calls on `[{"a":[1,2]},3]` cut into four chunks -/
+example : Stream.runScript {} [.readToken, .readValue, .skipValue, .readToken]
+    (Stream.init ([[0x5B, 0x7B, 0x22], [0x61, 0x22, 0x3A, 0x5B, 0x31], [0x2C, 0x32, 0x5D, 0x7D, 0x2C], [0x33, 0x5D]].map Event.chunk)) =
+    [.tok 0x5B 0 1, .tok 0x7B 1 12, .skip 14, .tok 0x5D 14 15] := by decide +kernel
+
+open JsonV.Model.Stream in
+/-- `value_span_full`: a value returned by ReadValue at absolute offsets `[a, b)` lies inside the input, `InputOffset`
+is `b` afterwards, `prevStart` is `a`, and the bytes handed out — `d.buf[d.prevStart:d.prevEnd]` — are exactly
+`input[a:b]`, whatever the kind of the value and however the input arrived. -/
+theorem value_span_full (o : Validate.VOpts) (s : SState) (ws : WState) (h : Sim s ws) (pre : Bytes)
+    (hpre : pre.length = ws.off) (k : UInt8) (a b : Nat) (ht : (Stream.readValue o s).1 = .tok k a b) :
+    ws.off ≤ a ∧ a ≤ b ∧ b ≤ (pre ++ ws.r).length ∧
+    (Stream.readValue o s).2.w.inputOffset = b ∧
+    (Stream.readValue o s).2.w.baseOffset + (Stream.readValue o s).2.w.prevStart = a ∧
+    (Stream.readValue o s).2.prevBytes = ((pre ++ ws.r).drop a).take (b - a) :=
+  readValue_span o s ws h pre hpre k a b ht
+
+open JsonV.Model.Stream in
+/-- `fault_stutter_full` for ReadValue: a ReadValue that returns the transient error — wherever inside the value the
+fault struck — leaves the decoder at the same point (same state machine and namespaces, same InputOffset, same
+remaining input), with strictly fewer reader events left: the retried call sees the fault-free situation. -/
+theorem fault_stutter_full (o : Validate.VOpts) (s : SState) (ws : WState) (h : Sim s ws)
+    (hf : (Stream.readValue o s).1 = .fault) :
+    Sim (Stream.readValue o s).2 ws ∧ (Stream.readValue o s).2.events.length < s.events.length := by
+  rcases readValue_sim o s ws h with ⟨_, hs, hl⟩ | ⟨ho, _, _⟩
+  · exact ⟨hs, hl⟩
+  · rw [hf] at ho; exact absurd ho.symm (wholeReadWith_ne_fault _ ws)
+
+open JsonV.Model.Stream in
+/-- and a call that does not fault agrees with the whole-input decoder even when the reader faults elsewhere -/
+theorem readValue_agrees (o : Validate.VOpts) (s : SState) (ws : WState) (h : Sim s ws)
+    (hf : (Stream.readValue o s).1 ≠ .fault) :
+    (Stream.readValue o s).1 = (Stream.wholeReadValue o ws).1 ∧ Sim (Stream.readValue o s).2 (Stream.wholeReadValue o ws).2 := by
+  rcases readValue_sim o s ws h with ⟨hx, _, _⟩ | ⟨ho, hs, _⟩
+  · exact absurd hx hf
+  · exact ⟨ho, hs⟩
+
+open JsonV.Model.Stream in
+/-- a fault inside a value does occur in the model: `[1,` fault `2]`: the first ReadValue returns it, the second succeeds -/
+example : Stream.runScript {} [.readValue, .readValue]
+    (Stream.init [Event.chunk [0x5B, 0x31, 0x2C], Event.fault, Event.chunk [0x32, 0x5D]]) = [.fault, .tok 0x5B 0 5] := by decide +kernel
+
 /-! ## Full statements that are NOT proved (validated by the harness: transcripts over all readers) -/
 
-inductive Call where
-  | readToken | readValue | skipValue | peekKind
+/-- what the property observes beyond the results: `StackPointer`, and the JSONPointer of errors -/
+structure PointerModel where
+  /-- an executable model of the decoder with `d.Names` that returns, for a reader and a script, the pointer
+  observations after every call -/
+  pointers : List Stream.Event → List Stream.Call → List Bytes
 
-/-- what the property observes after one call -/
-structure Obs where
-  result : Bytes
-  errClass : Nat
-  errOffset : Nat
-  errPointer : Bytes
-  inputOffset : Nat
-  stackDepth : Nat
-  stackIndex : List (Nat × Nat)
-  stackPointer : Bytes
+/-- `sim_pointers_full`: StackPointer after every call and the JSONPointer of every error do not depend on the
+chunking (needs a model of `objectNameStack` with its lazily copied buffer offsets; finding D3 lived here). -/
+def sim_pointers_full (M : PointerModel) : Prop :=
+  ∀ (cs : List Bytes) (calls : List Stream.Call),
+    M.pointers (cs.map Stream.Event.chunk) calls = M.pointers [Stream.Event.chunk cs.flatten] calls
 
-/-- a reader event: a chunk of data, a transient fault -/
-inductive Event where
-  | chunk (data : Bytes)
-  | fault
+/-- a decoder model with PeekKind and its cache (`peekPos`, `peekErr`) -/
+structure PeekModel where
+  run : List Stream.Event → List (Option Stream.Call) → List Stream.Out      -- `none` = PeekKind
 
-/-- an executable model of the whole Decoder (to be supplied by Model/Stream.lean) -/
-structure DecoderModel where
-  run : List Event → List Call → List Obs
-
-/-- `sim_full`: the transcript of any script over ALL FOUR calls (ReadToken, ReadValue, SkipValue, PeekKind, with the
-peek cache, `d.Names`/StackPointer and error pointers) does not depend on the chunking of the input.  Proved above
-for ReadToken sequences (`sim_tokens`); ReadValue needs a streaming model of consumeValue/consumeObject/consumeArray
-(the whole-buffer one is Model/Validate.lean), SkipValue is a ReadToken loop or a ReadValue. -/
-def sim_full (M : DecoderModel) : Prop :=
-  ∀ (chunks : List Bytes) (calls : List Call),
-    M.run (chunks.map Event.chunk) calls = M.run [Event.chunk chunks.flatten] calls
-
-/-- `value_span_full`: every value returned by ReadValue is the input span ending at InputOffset. -/
-def value_span_full (M : DecoderModel) : Prop :=
-  ∀ (chunks : List Bytes) (calls : List Call) (o : Obs), o ∈ M.run (chunks.map Event.chunk) calls →
-    o.errClass = 0 → o.result = (chunks.flatten.take o.inputOffset).drop (o.inputOffset - o.result.length) ∨ o.result = []
-
-/-- `fault_stutter_full`: a transient fault shows up as one extra observation that repeats the previous state;
-removing it gives the fault-free transcript (ReadToken, ReadValue, PeekKind only). -/
-def fault_stutter_full (M : DecoderModel) : Prop :=
-  ∀ (pre post : List Bytes) (calls : List Call), Call.skipValue ∉ calls →
-    ∃ (i : Nat), (M.run (pre.map Event.chunk ++ [Event.fault] ++ post.map Event.chunk) calls).eraseIdx i =
-      M.run ((pre ++ post).map Event.chunk) calls
+/-- `sim_peek_full`: scripts that also call PeekKind (the cached position and the cached error, which the next read
+call returns and clears) do not depend on the chunking; `fault_stutter` for PeekKind.  `Stream.peek` models PeekKind
+without the cache and `peek_sim` (Lemmas/ResumeStreamCalls) shows it finds the whole-input kind. -/
+def sim_peek_full (M : PeekModel) : Prop :=
+  ∀ (cs : List Bytes) (calls : List (Option Stream.Call)),
+    M.run (cs.map Stream.Event.chunk) calls = M.run [Stream.Event.chunk cs.flatten] calls
 
 end JsonV.Props.C05
